@@ -368,3 +368,17 @@ def _read_before_any_store(fn, bound) -> list:
             assigned |= stores_in(st)
     run(fn.body, params)
     return out
+
+
+def mutable_defaults(fn):
+    """[(node, message)] for parameter defaults that are one mutable object shared by all calls (a display or a constructor call of
+    list / dict / set / deque / defaultdict / bytearray)"""
+    out = []
+    a = fn.args
+    pos = a.posonlyargs + a.args
+    pairs = list(zip(pos[len(pos) - len(a.defaults):], a.defaults)) + [(p, d) for p, d in zip(a.kwonlyargs, a.kw_defaults) if d is not None]
+    for p, d in pairs:
+        if isinstance(d, (ast.List, ast.Dict, ast.Set, ast.ListComp, ast.DictComp, ast.SetComp)) or (
+                isinstance(d, ast.Call) and isinstance(d.func, ast.Name) and d.func.id in ('list', 'dict', 'set', 'deque', 'defaultdict', 'bytearray', 'Counter')):
+            out.append((d, f'parameter `{p.arg}` defaults to one mutable object shared between calls: {ast.unparse(d)}'))
+    return out
